@@ -196,6 +196,18 @@ where
         let mut t = R2::<T::Color>::new(b);
         moved.draw(&mut t).unwrap();
         cut.push((b, t.rec.map));
+        // the same box on a draw_iter-only target
+        let mut t = R1::<T::Color>::new(b);
+        moved.draw(&mut t).unwrap();
+        cut.push((b, t.rec.map));
+    }
+    // degenerate boxes (empty, flat, disjoint) on both kinds of target: nothing may be drawn
+    for (_, b) in degenerate_boxes(&mb) {
+        let (mut d1, mut d2) = (R1::<T::Color>::new(b), R2::<T::Color>::new(b));
+        moved.draw(&mut d1).unwrap();
+        moved.draw(&mut d2).unwrap();
+        cut.push((b, d1.rec.map));
+        cut.push((b, d2.rec.map));
     }
     MoveOut { bb0: img.bounding_box(), bb: moved.bounding_box(), same_as_mut: m == moved, map0: t0.rec.map, map: t1.rec.map, cut }
 }
@@ -818,7 +830,10 @@ impl Module for M {
                     // what is inside the target is the shifted picture (seeded change C07-r3-2 drew "the visible part"
                     // at the wrong place when the image was cut at its left or top side)
                     for (b, m) in &out.cut {
-                        let want: PMap = shifted.iter().filter(|((y, x), _)| b.contains(Point::new(*x, *y))).map(|(k, v)| (*k, *v)).collect();
+                        let want: PMap = restrict_map(&shifted, b);
+                        if b.size.width == 0 || b.size.height == 0 || (want.is_empty() && !shifted.is_empty()) {
+                            ctx.count("move:degenerate-bounded-target");
+                        }
                         if want.len() != shifted.len() && !want.is_empty() {
                             ctx.count("move:cut-by-a-bounded-target");
                         }
